@@ -12,10 +12,10 @@ from ..ref import cascade as C
 class Analysis:
     """Result of one service call plus the exact cascades of every reporting zone."""
 
-    def __init__(self, case: dict, out: Outcome, prefix: str):
+    def __init__(self, case: dict, out: Outcome, prefix: str, clear: bool = True):
         self.case = case
         self.ok = False
-        ok, res = S.run_service(case)
+        ok, res = S.run_service(case, clear=clear)
         if not ok:
             out.fail(f"{prefix}.sut_exception:" + res, f"service raised {res}: {S.call_sut.last_message}")
             return
